@@ -205,7 +205,8 @@ mutation does):
 * the visibility flag of `o`:           `inval o`, `reset o descendants`, `mutate o self visible gs`
   (the ancestors, `o`, and — inherited visibility — everything below `o`)
 * the rectangle of a plain layer `o`:   `inval o`, [`read o …`], `mutate o self rect gs`
-* an invalidation, a reset or a dirty mark on its own (clearing a cache never makes it stale).
+* an invalidation, a reset, a dirty mark or a read on its own (clearing a cache never makes it stale; a read fills
+  it with the value computed from the tree as it is).
 
 Anything else — a mutation that is not followed / preceded by its invalidations in this way, a direct store,
 an unclassified statement — is not covered. -/
@@ -226,6 +227,7 @@ def covered : List Eff → Bool
   | .inval _ _ :: rest => covered rest
   | .reset _ _ _ :: rest => covered rest
   | .dirty _ _ :: rest => covered rest
+  | .read _ _ _ :: rest => covered rest
   | _ => false
 
 def rowOk (r : Row) : Bool := r.segs.all covered
